@@ -458,7 +458,12 @@ Step ==
             /\ Cn' = Put(Cn, e.cid, [Cn[e.cid] EXCEPT !.closed = TRUE, !.role = IF Cn[e.cid].role = "cand" THEN "dead" ELSE Cn[e.cid].role])
             /\ S' = IF Cn[e.cid].role = "main" /\ Has(SS, Cn[e.cid].sid) THEN Put(SS, Cn[e.cid].sid, [SS[Cn[e.cid].sid] EXCEPT !.closeSeen = TRUE])
                     ELSE IF Cn[e.cid].role = "cand" /\ Has(SS, Cn[e.cid].sid) THEN Put(SS, Cn[e.cid].sid, [SS[Cn[e.cid].sid] EXCEPT !.noopDue = IF Cn[e.cid].ponged THEN Off ELSE @,
-                                                                       !.upgrading = IF Cn[e.cid].ponged \/ Cn[e.cid].probed THEN FALSE ELSE @])
+                                                                       \* (the attempt of THIS candidate is over - unless another live candidate of the session has
+                                                                       \*  sent a probe too: which of them the server is entertaining cannot be told from outside)
+                                                                       !.upgrading = IF (Cn[e.cid].ponged \/ Cn[e.cid].probed)
+                                                                                        /\ ~\E c2 \in DOMAIN Cn : c2 # e.cid /\ Cn[c2].sid = Cn[e.cid].sid /\ Cn[c2].role = "cand"
+                                                                                                                  /\ ~Cn[c2].closed /\ Cn[c2].probed
+                                                                                     THEN FALSE ELSE @])
                     ELSE SS
             /\ viol' = viol \o tv /\ UNCHANGED <<cfg, Rq>>
 
@@ -540,6 +545,8 @@ Step ==
                 diffs == (IF x.upgrading # y.upgrading THEN <<"upgrading">> ELSE <<>>) \o (IF x.upgraded # y.upgraded THEN <<"upgraded">> ELSE <<>>)
                       \o (IF x.tr # y.tr THEN <<"tr">> ELSE <<>>) \o (IF x.nswitch # y.nswitch THEN <<"nswitch">> ELSE <<>>)
                       \o (IF \E c \in cs : x.closed[c] # y.closed[c] THEN <<"closed">> ELSE <<>>)
+                      \o (IF "probed" \in DOMAIN x /\ "probed" \in DOMAIN y /\ \E c \in DOMAIN y.probed \cap DOMAIN x.probed : x.probed[c] # y.probed[c]
+                          THEN <<"probed">> ELSE <<>>)
             IN /\ S' = SS /\ UNCHANGED <<cfg, Rq, Cn>>
                /\ viol' = viol \o tv \o (IF diffs = <<>> THEN <<>> ELSE <<V("NONCONF", "upgrade_state_differs", e.sid, [after |-> e.a, cand |-> e.c, fields |-> diffs, exp |-> x, act |-> y])>>)
                     \o (IF y.nswitch > 1 THEN <<V("C08", "upgraded_more_than_once", e.sid, y.nswitch)>> ELSE <<>>)
@@ -554,6 +561,11 @@ Step ==
                     \o (IF y.nwh > 1 THEN <<V("C11", "second_response_to_one_request", "", [nwh |-> y.nwh])>> ELSE <<>>)
                     \o (IF y.nwh >= 1 /\ ~y.done THEN <<V("C11", "request_answerable_after_its_response", "", [nwh |-> y.nwh])>> ELSE <<>>)
                     \o (IF y.nclose > 1 THEN <<V("C11", "request_closed_twice", "", [nclose |-> y.nclose])>> ELSE <<>>)
+       [] e.e = "upgr.final" ->
+            \* the one candidate the server is entertaining has sent its probe: it has been answered, whenever the probe was sent
+            /\ S' = SS /\ UNCHANGED <<cfg, Rq, Cn>>
+            /\ viol' = viol \o tv \o (IF e.upgrading /\ e.sentProbe /\ ~e.ponged
+                                       THEN <<V("C08", "probe_of_entertained_candidate_not_answered", e.sid, "")>> ELSE <<>>)
        [] e.e = "tickwin" ->
             \* the tick of the refreshed timer was held before the timer's mutex when the heartbeat packet was accepted: it is stale
             /\ S' = SS
